@@ -156,6 +156,8 @@ Variable reuse : bool.   (* may the allocator issue a freed address again? *)
 
 Definition is_bulk (k : opk) := match k with KBulk | KSteal => true | _ => false end.
 Definition is_local (k : opk) := match k with KLocal => true | _ => false end.
+Definition is_steal (k : opk) := match k with KSteal => true | _ => false end.
+Definition is_own (k : opk) := match k with KOwn => true | _ => false end.
 Definition call_ok (a : nat) (k : opk) : bool :=
   match k with KPush | KLocal => Nat.eqb a 0 | KEmpty => true | _ => negb (Nat.eqb a 0) end.
 Definition entry (k : opk) : pcT := match k with KPush => OW | KEmpty => E0 | KOwn => Ext | _ => X0 end.
@@ -199,13 +201,12 @@ Definition step (s : st) (ac : action) : option st :=
   | Ret a =>
       let me := A s a in
       match pc me with
-      | Ext => match kd me with
-               | KOwn => match dq me with
-                         | [] => Some (setA s a (a_pc me Idle))
-                         | v :: r => Some (setA s a (a_pc (a_dq (a_rv me [v]) r) Idle))
-                         end
-               | _ => Some (setA s a (a_pc me Idle))
-               end
+      | Ext => if is_own (kd me)
+               then match dq me with
+                    | [] => Some (setA s a (a_pc me Idle))
+                    | v :: r => Some (setA s a (a_pc (a_dq (a_rv me [v]) r) Idle))
+                    end
+               else Some (setA s a (a_pc me Idle))
       | _ => None
       end
   | Step a x =>
@@ -306,11 +307,10 @@ Definition step (s : st) (ac : action) : option st :=
       | XM => (* block.mark_slots_read(end - pop_index); free the block if that was the rest *)
           let s1 := release s (lb me) (pend me - ppi me) in
           let s2 := s_rl s1 (updr (rl s1) (ppi me) (pend me) true) in
-          match kd me with
-          | KSteal => Some (setA s2 a (a_pc (a_dq (a_rv me (match rev (res me) with v :: _ => [v] | [] => [] end))
-                                                  (dq me ++ removelast (res me))) Ext))
-          | _ => Some (setA s2 a (a_pc (a_rv me (res me)) Idle))
-          end
+          if is_steal (kd me)
+          then Some (setA s2 a (a_pc (a_dq (a_rv me (match rev (res me) with v :: _ => [v] | [] => [] end))
+                                           (dq me ++ removelast (res me))) Ext))
+          else Some (setA s2 a (a_pc (a_rv me (res me)) Idle))
       | LK => (* local_pop, unreachable: tail.index.store(push_index + 1) *)
           Some (setA (s_tix s (S (lpi me))) a (a_pc me LKr))
       | LKr => (* local_pop, unreachable: mark_slots_read(1) of the skipped slot *)
